@@ -493,11 +493,39 @@ def r02_1_call_site(ctx):
     ctx.require_min("R02.1", 7)
 
 
+def _recursive_path_on(ctx, f, name, g, reach):
+    """R02.4p: find_recursive_path (the call path quoted by the by-reference-in-recursion TealInputError) on one call graph, from
+    every routine: it terminates (a depth-first search over at most five routines; running out of host stack or of the evaluation
+    budget is a non-terminating search, i.e. a RecursionError instead of the PyTeal error), returns [] exactly when the routine is
+    on no cycle, and otherwise a path of call edges from the routine back to itself."""
+    from sa.model import AnalysisError as _AE
+
+    for k in g:
+        construct = f"find_recursive_path[{name} from {k!r}]"
+        try:
+            val, _ = run_function(f.node, {"subroutine_graph": g, "subroutine": k}, lambda e, me: (_ for _ in ()).throw(Unknown()), f.fq)
+        except RecursionError:
+            ctx.bad("R02.4p", construct, "the search does not terminate on this call graph (unbounded recursion: compilation would die with RecursionError instead of the TealInputError)", f.where)
+            continue
+        except _AE as e:
+            if "budget" not in str(e):
+                raise
+            ctx.bad("R02.4p", construct, "the search does not terminate on this call graph (evaluation budget of a five-routine search exceeded)", f.where)
+            continue
+        on_cycle = reach(g, k, k)
+        if not on_cycle:
+            ok = val == []
+        else:
+            ok = isinstance(val, list) and len(val) >= 2 and val[0] is k and val[-1] is k and all(b in g[a] for a, b in zip(val, val[1:]))
+        ctx.check(ok, "R02.4p", construct, f"returns {val!r}; the routine is {'on a cycle: a path of call edges from it back to itself is expected' if on_cycle else 'on no cycle: [] is expected'}", f.where, fact={"path": repr(val)})
+
+
 def r02_4_recursion_guards(ctx):
     ctx.rule("R02.4", "re-entrancy: a callee is a re-entry point exactly when a call path leads from it back to the caller; by-reference parameters in a recursive cycle are rejected before any spill; spilled slots are the routine's local slots")
     gs = ctx.model.find_func("graph_search", "pyteal.compiler.subroutines")
     frp = ctx.model.find_func("findRecursionPoints", "pyteal.compiler.subroutines")
-    ctx.analysed(gs.fq, frp.fq)
+    frpath = ctx.model.find_func("find_recursive_path", "pyteal.compiler.subroutines")
+    ctx.analysed(gs.fq, frp.fq, frpath.fq)
     # evaluate findRecursionPoints on small call graphs and compare with reachability computed here
     nodes = [Sym(n) for n in "ABCD"]
     A, B, C, D = nodes
@@ -542,6 +570,7 @@ def r02_4_recursion_guards(ctx):
         val, me = run_function(frp.node, {"subroutineGraph": g}, lambda e, me: (_ for _ in ()).throw(Unknown()), frp.fq, resolver=resolver)
         want = {k: {c for c in g[k] if reach(g, c, k)} for k in g}
         got = {k: set(v) for k, v in val.items()} if isinstance(val, dict) else None
+        _recursive_path_on(ctx, frpath, name, g, reach)
         ctx.check(got == want, "R02.4", f"findRecursionPoints[{name}]", f"re-entry points {got} differ from graph reachability {want}", frp.where, fact={"graph": {repr(k): sorted(map(repr, v)) for k, v in g.items()}, "reentry": {repr(k): sorted(map(repr, v)) for k, v in (got or {}).items()}})
     # by-ref rejection dominates the spill loop
     f = ctx.model.find_func("spillLocalSlotsDuringRecursion", "pyteal.compiler.subroutines")
